@@ -154,7 +154,10 @@ NOWS = [[0, 0, 30], [12, 0, 0, 600_000], [23, 59, 30, 999_999]]
 
 def special_dates():
     return [(2024, 2, 28), (2024, 2, 29), (2024, 3, 1), (2023, 2, 28), (2023, 12, 31), (2024, 1, 1),
-            (2038, 1, 19), (2038, 1, 20), (2100, 2, 28), (2100, 3, 1), (1971, 1, 2), (2105, 12, 31)]
+            (2038, 1, 19), (2038, 1, 20), (2100, 2, 28), (2100, 3, 1), (1971, 1, 2), (2105, 12, 31),
+            # days whose ISO-week year differs from the calendar year (%G vs %Y), both directions
+            (2024, 12, 30), (2024, 12, 31), (2025, 12, 29), (2026, 12, 31), (2027, 1, 1), (2027, 1, 3), (2021, 1, 1), (2021, 1, 3),
+            (2022, 1, 2), (2032, 12, 27)]
 
 
 def cases_roundtrip(tier):
